@@ -174,6 +174,19 @@ pub fn prepare_in(b: &Behaviour, dna: &[u16], env: &Env) -> Option<Prepared> {
             if lower.is_empty() || !d.chance(50) {
                 continue;
             }
+            // either the function itself gets a generated name, or it lives in a module named like a path segment the
+            // generated code spells (`fmt::..`, `cmp::..`): whatever the expansion imports or declares under that name
+            // must not capture the user's path
+            if d.chance(35) {
+                const SEGMENTS: [&str; 10] = ["fmt", "cmp", "hash", "clone", "ops", "convert", "marker", "default", "option", "result"];
+                let seg = SEGMENTS[d.pick(SEGMENTS.len())];
+                if user.iter().any(|u| u == seg) || spec.method_alias.iter().any(|(_, a)| a.starts_with(&format!("{seg}::"))) || spec.extra_items.iter().any(|i| i.contains(&format!("mod {seg} "))) {
+                    continue;
+                }
+                spec.extra_items.push(format!("#[allow(unused_imports, dead_code)] pub mod {seg} {{ pub use super::super::prelude::{m}; }}"));
+                spec.method_alias.push((m.clone(), format!("{seg}::{m}")));
+                continue;
+            }
             let h = (*d.choose(&lower)).clone();
             if spec.method_alias.iter().any(|(_, a)| *a == h) {
                 continue;
